@@ -136,10 +136,12 @@ class MatchAPI(Family):
             P = [ctx.exact(v) for v in ps]
             F = [0, N - 1] if M == 2 else [0, (N - 1) // 2, N - 1]
             R = [o_closest(P, X[f]) for f in F]
+            # the caller may list explicit fixed points in any order (they are documented as a set)
+            order = list(reversed(F)) if (N + M + len(trule)) % 2 else ([F[-1]] + F[:-1])
             if mode == "positions":
-                kw["fixed_points_in_x"] = [x[f] for f in F]
+                kw["fixed_points_in_x"] = [x[f] for f in order]
             else:
-                kw["fixed_points_indices_in_x"] = list(F)
+                kw["fixed_points_indices_in_x"] = list(order)
         # precondition of the property: distinct fixed points with an interior sample in between,
         # and (explicit modes) distinct matched reference points
         for a, b in zip(F, F[1:]):
@@ -240,10 +242,11 @@ class MatchLong(Family):
             keep = [0, M // 2, M - 1]
             F = [allF[k] for k in keep]
             R = [o_closest(gp, gx[f]) for f in F]
+            order = [F[1], F[2], F[0]] if (N + len(rrule)) % 2 else list(reversed(F))
             if mode == "positions-subset":
-                kw["fixed_points_in_x"] = [x[f] for f in F]
+                kw["fixed_points_in_x"] = [x[f] for f in order]
             else:
-                kw["fixed_points_indices_in_x"] = list(F)
+                kw["fixed_points_indices_in_x"] = list(order)
         for a, b in zip(F, F[1:]):
             ctx.assume(b - a >= 2)
         for a, b in zip(R, R[1:]):
